@@ -212,7 +212,7 @@ func runC14(r *rt.Runner) {
 			if len(garbage) > 0 {
 				c.Count("streams with garbage after the marker")
 			}
-			c.Nontrivial(append(append([]byte(plan.desc+"|"+ddesc+"|"), stream...)), func() string {
+			c.Nontrivial(append([]byte(plan.desc+"|"+ddesc+"|"), stream...), func() string {
 				return fmt.Sprintf("%d segments, marker=%v, caller %s, delivery %s", len(segs), marker, plan.desc, ddesc)
 			})
 		})
@@ -274,6 +274,33 @@ func runC14(r *rt.Runner) {
 				c.Violation("header-mid-stream", fmt.Sprintf("bad header % x after two good segments: got %q, %v; expected %q then ErrInvalidPFB (caller %s)", []byte{b0, b1}, out, err, want, plan.desc), "")
 			}
 			c.Nontrivial(append([]byte("mid|"+plan.desc), b0, b1), nil)
+		}
+	})
+
+	// declared lengths of 2^31 and more with only a few bytes following
+	r.Case("huge-declared-length", func(c *rt.C) {
+		rng := c.Rand()
+		for _, ln := range []uint32{1 << 31, 1<<31 + 1, 3 << 30, 1<<32 - 1, 1<<31 - 1, 1 << 30} {
+			for _, typ := range []byte{1, 2} {
+				for avail := 0; avail < 6; avail++ {
+					stream := []byte{0x80, 1, 3, 0, 0, 0, 'a', 'b', 'c', 0x80, typ, byte(ln), byte(ln >> 8), byte(ln >> 16), byte(ln >> 24)}
+					stream = append(stream, []byte("xyzuvw")[:avail]...)
+					plan := genCallerPlan(rng)
+					if allZero(plan.sizes) {
+						continue
+					}
+					out, err, _, _ := drivePFB(stream, nil, false, plan)
+					c.Eval()
+					c.Count("segments declaring 2^30 bytes or more")
+					if typ == 2 && (err == nil || err == io.EOF) {
+						c.Violation("huge-length|clean-eof", fmt.Sprintf("binary segment declares %d bytes, %d follow: reading ended with %v", ln, avail, err), "")
+					}
+					if !bytes.HasPrefix(out, []byte("abc")) {
+						c.Violation("huge-length|bytes", fmt.Sprintf("output %q does not start with the first segment", out), "")
+					}
+					c.Nontrivial(append([]byte(plan.desc), stream...), nil)
+				}
+			}
 		}
 	})
 
